@@ -323,3 +323,17 @@ TRUSTED_COMMON = [
     "harness (generators, canonicalisation, diffing) under /verif/harness",
     "CPython 3.12 / networkx 3.6.1 / HiGHS 1.15.1 as execution platform of the implementation",
 ]
+
+
+def solver_artifact(ctx, build, good):
+    """A result that contradicts the property may come from the SOLVER answering wrongly (HiGHS 1.15.1's presolve has been seen
+    to report a feasible MILP infeasible -- DESIGN 10.4).  `build(extra_solver_options)` constructs and solves the same instance
+    again; if with presolve OFF the result satisfies `good`, the deviation is a failure of the solver specification every
+    statement here is relative to: it is counted in the evidence (solver_specification) and not reported against flowpaths."""
+    try:
+        m2 = build({"presolve": "off"})
+        if good(m2):
+            ctx.count("solver_specification", "result_wrong_only_with_presolve_on"); return True
+    except Exception:
+        pass
+    return False
